@@ -8,7 +8,7 @@ package verifc07
 // ResourceManager, every call and every execution of a user function stamped by one global atomic
 // counter. One section = one concurrent run; one line = one call:
 //
-//	call id=<n> g=<goroutine> key=<k> ex=<0|1> pre=<n> yield=<n> err=<0|1> hold=<0|1> [panic=1] [pk=<1|2|3>] [ek=<1..4>] [ep=<0..3>]
+//	call id=<n> g=<goroutine> key=<k> ex=<0|1> pre=<n> yield=<n> err=<0|1> hold=<0|1> [panic=1] [pk=<1|2|3>] [ek=<1..5>] [ep=<0..3>] [cx=<0..2>]
 //	   => inv=<stamp> ret=<stamp> val=<id|nil> fresh=<0|1|-> err=<id|-> fs=<stamp|-> fe=<stamp|-> runs=<n> stuck=<0|1> [panic=<1|2>]
 //
 // Outcome kinds of the user function (round 5): err=1 with ek = 1 pointer error (*Err), 2 wrapped (fmt.Errorf("%w")),
@@ -33,6 +33,7 @@ package verifc07
 
 import (
 	"bufio"
+	"context"
 	"errors"
 	"fmt"
 	"os"
@@ -87,7 +88,7 @@ type Call struct {
 	id, g, key            int
 	ex, serr, hold        bool
 	spanic                bool
-	pk, ek, ep            int
+	pk, ek, ep, cx        int
 	errObj                error // the error value this call's function returned (under mu)
 	goexit                bool  // the call's goroutine was ended by runtime.Goexit
 	pre, yield            int
@@ -111,7 +112,7 @@ func parse(text string) (*Call, bool) {
 	}
 	return &Call{text: text, id: c.Int("id", -1), g: c.Int("g", 0), key: c.Int("key", 0),
 		ex: c.Int("ex", 0) == 1, serr: c.Int("err", 0) == 1, hold: c.Int("hold", 0) == 1,
-		spanic: c.Int("panic", 0) == 1, pk: c.Int("pk", 1), ek: c.Int("ek", 1), ep: c.Int("ep", c.Int("ex", 0)),
+		spanic: c.Int("panic", 0) == 1, pk: c.Int("pk", 1), ek: c.Int("ek", 1), ep: c.Int("ep", c.Int("ex", 0)), cx: c.Int("cx", 0),
 		pre: c.Int("pre", 0), yield: c.Int("yield", 0), val: "nil", fresh: "-", err: "-"}, true
 }
 
@@ -176,6 +177,11 @@ func (c *Call) Key() int { return c.key }
 func (c *Call) ID() int  { return c.id }
 func (c *Call) Ex() bool { return c.ex }
 func (c *Call) G() int   { return c.g }
+
+// CX is the kind of context the call passes to a ...Ctx entry point: 0 Background, 1 a deadline far in the future,
+// 2 an already cancelled context (the cache lookup inside the flight fails with context.Canceled: no query, the error
+// goes to everyone who shares the flight; printed err=lk).
+func (c *Call) CX() int { return c.cx }
 
 // EP is the public entry point of the user this call goes through (0 unless the op says ep=<n>).
 func (c *Call) EP() int { return c.ep }
@@ -391,6 +397,9 @@ func RunSection(cfg verifh.Cfg, ops []string, mk func(cfg verifh.Cfg) Target) []
 							break
 						}
 					}
+				} else if err == context.Canceled && mode == "rm" {
+					// the lookup inside the flight failed (cancelled context of the flight's leader)
+					c.err = "lk"
 				} else if err != nil {
 					c.err = errName(err, v, calls)
 				}
@@ -668,6 +677,10 @@ func Gen(r *verifh.Rng, nsec int, via string) []verifh.Section {
 				}
 				if ep >= 0 {
 					op += fmt.Sprintf(" ep=%d", ep)
+				}
+				if ep >= 2 {
+					// the context handed to TakeCtx / TakeWithExpireCtx: Background, far deadline, already cancelled
+					op += fmt.Sprintf(" cx=%d", r.Pick(0, 1, 1, 2))
 				}
 				ops = append(ops, op)
 			}
